@@ -30,6 +30,8 @@ def run(ctx, chk):
     b1(fb, chk)
     b2(fb, chk)
     b3(fb, chk)
+    from . import xlist
+    xlist.apply("C18", fb, chk)
     n = lambda r: len([i for i in chk.instances if i[0] == r])
     # the descriptor of a request travels with its first byte on every (re)try of the send (C01/W6)
     from vlint.report import Renamed as _Renamed
